@@ -33,6 +33,7 @@ func runC18(c *core.Ctx) {
 	c.Rule("R5", "failure propagation", 1)
 	c.Rule("R6", "dependency queries read only the dependency graph and never write through an alias of it", 5)
 	c.Rule("R8", "the await primitive the dependency check relies on answers nil ⇔ the service is in the awaited state when the waiter wakes up", 1)
+	c.Rule("R9", "the stop helper the wrapper relies on really waits: every return of StopAndAwaitTerminated comes after StopAsync and AwaitTerminated", 1)
 	c.Rule("R7", "orderedDeps: a module is placed only after each of its dependencies has been placed (inductive invariant of the ordering loop)", 3)
 	pkg := c.Prog.Pkg("modules")
 	if pkg == nil {
@@ -352,6 +353,7 @@ func runC18(c *core.Ctx) {
 	}
 	// ---- R7
 	c18Await(c)
+	c18StopHelper(c)
 	c18Order(c, pkg)
 	// ---- R6 purity of dependency queries
 	mgr := an.LookupType(pkg, "Manager")
@@ -711,4 +713,61 @@ func c18Await(c *core.Ctx) {
 		}}
 	res := t.Run()
 	c.Check(res.OK(), "R8", "func=BasicService.awaitState", fn.Pos(), "after the wake-up: nil ⇔ State() == awaited state, independent of anything else: "+res.Summary(), res.Rows)
+}
+
+// c18StopHelper (R9): moduleService.stop treats the return of services.StopAndAwaitTerminated as "the
+// wrapped service is terminal" before letting its dependencies stop. Every return of that helper must
+// therefore lie behind its StopAsync and AwaitTerminated calls.
+func c18StopHelper(c *core.Ctx) {
+	pkg := c.Prog.Pkg("services")
+	if pkg == nil {
+		c.Miss("R9", "pkg=services", "not loaded")
+		return
+	}
+	for _, e := range []struct {
+		fn    string
+		calls []string
+		all   bool // all returns, or only the nil-valued ones
+	}{
+		{"StopAndAwaitTerminated", []string{"StopAsync", "AwaitTerminated"}, true},
+	} {
+		fn := an.FindFunc(pkg, e.fn)
+		if fn == nil {
+			c.Miss("R9", "func="+e.fn, "not found")
+			continue
+		}
+		c.Analysed(fn.String())
+		g := fn.Graph()
+		var targets []an.Loc
+		for _, name := range e.calls {
+			for _, call := range fn.Calls(false) {
+				if sel, ok := call.Expr.Fun.(*ast.SelectorExpr); ok && sel.Sel.Name == name && fn.Canon(sel.X) == "p1" {
+					targets = append(targets, g.Locate(call.Expr))
+				}
+			}
+		}
+		if len(targets) != len(e.calls) {
+			c.Undec("R9", "func="+e.fn, fn.Pos(), fmt.Sprintf("expected one call each of %v on the service, found %d", e.calls, len(targets)))
+			continue
+		}
+		var bad []string
+		n := 0
+		for _, b := range g.Blocks {
+			r := an.ReturnOf(b)
+			if r == nil || len(r.Results) != 1 {
+				continue
+			}
+			v := fn.Canon(r.Results[0])
+			if !e.all && (v == "p1.StartAsync(p0)" || strings.HasPrefix(v, "p1.FailureCase()")) {
+				continue // an error of the start itself / the service's failure: not a claim that it runs
+			}
+			n++
+			for i := range targets {
+				if !g.Before(targets[i], g.Locate(r)) {
+					bad = append(bad, fmt.Sprintf("return %s (line %d) can be reached without %s", v, c.Prog.Fset.Position(r.Pos()).Line, e.calls[i]))
+				}
+			}
+		}
+		c.Check(n > 0 && len(bad) == 0 && g.Before(targets[0], targets[1]), "R9", "func="+e.fn, fn.Pos(), fmt.Sprintf("%d returns, each behind %v in that order: %v", n, e.calls, bad), n)
+	}
 }
